@@ -32,14 +32,22 @@ PoolFits(k, pool) == \/ (k \in {"tex", "t"} /\ pool = "T")
                      \/ (k = "zs" /\ pool = "S")
                      \/ (k = "ua" /\ pool \in {"O", "I"})
 
+\* TLC expands a bounded \A in an action into a conjunction and splits on every \/ in it (2^n branches when two disjuncts
+\* hold for n elements - e.g. a lock that has expired AND belongs to the same owner): state predicates are handed to it as
+\* opaque boolean VALUES
+Holds(b) == b = TRUE
+
 \* (f) a lock request locks exactly the wallet-owned inputs of ALL steps - all or nothing: each of them must be acquirable
+LockableBy(r, SN, SC) ==
+    r.lock[1] >= 0 => /\ \A n \in SN : Acquirable(n, r.lock[1])
+                      /\ \A c \in SC : C!AcquirableC(clocks, c, r.lock[1], tip)
 LocksAfter(r, SN, SC, target) ==
-    IF r.lock[1] >= 0
-    THEN /\ \A n \in SN : Acquirable(n, r.lock[1])
-         /\ \A c \in SC : C!AcquirableC(clocks, c, r.lock[1], tip)
-         /\ locks'  = [n \in DOMAIN locks \cup SN |-> IF n \in SN THEN << r.lock[1], target + r.lock[2] >> ELSE locks[n]]
-         /\ clocks' = [c \in DOMAIN clocks \cup SC |-> IF c \in SC THEN << r.lock[1], target + r.lock[2] >> ELSE clocks[c]]
-    ELSE locks' = locks /\ clocks' = clocks
+    /\ locks'  = IF r.lock[1] >= 0
+                 THEN [n \in DOMAIN locks \cup SN |-> IF n \in SN THEN << r.lock[1], target + r.lock[2] >> ELSE locks[n]]
+                 ELSE locks
+    /\ clocks' = IF r.lock[1] >= 0
+                 THEN [c \in DOMAIN clocks \cup SC |-> IF c \in SC THEN << r.lock[1], target + r.lock[2] >> ELSE clocks[c]]
+                 ELSE clocks
 
 ExplainTex(r) ==
     /\ IOEnv.EXPLAIN = "1" /\ UNCHANGED << locks, clocks >>
@@ -57,21 +65,23 @@ TexProposalOK(r) ==
         adm == SeqToSet(r.admitted)
         SN == M!SelNotes(P)
         SC == M!SelCoins(P)
-    IN  /\ tip # -1 /\ p.target = target
-        \* (b) (c) (d) (g): every step balances exactly, references are right, nothing selected or consumed twice - within a
-        \* step or across steps -, no TEX recipient paid out of shielded notes, the ephemeral output spent; (e) follows
-        /\ M!Valid(P) /\ M!Conserves(P)
-        \* (a) every note / coin selected in ANY step is eligible, by the definitions single-step proposals are judged by
-        /\ \A i \in DOMAIN P :
-              /\ P[i].notes # << >> => (P[i].anchor >= 0 /\ P[i].anchor <= tip)
-              /\ \A j \in DOMAIN P[i].notes : Eligible(P[i].notes[j][1], P[i].notes[j][2], target, P[i].anchor, minconf, adm)
-              /\ \A j \in DOMAIN P[i].coins : /\ P[i].coins[j][1] \in EligSetT(r)
-                                              /\ coinSt.coins[P[i].coins[j][1]].v = P[i].coins[j][2]
-        \* the payments the proposal makes to the outside are exactly the requested ones, each once, in a pool its recipient
-        \* can be paid in (in whichever step)
-        /\ M!FinalPaySet(P) = { << r.pays[i].k, r.pays[i].ad, r.pays[i].v >> : i \in DOMAIN r.pays }
-        /\ M!NFinalPays(P) = Len(r.pays)
-        /\ \A i \in DOMAIN P : \A j \in DOMAIN P[i].pays : PoolFits(P[i].pays[j].k, P[i].pays[j].pool)
+    IN  /\ Holds(
+           /\ tip # -1 /\ p.target = target
+           \* (b) (c) (d) (g): every step balances exactly, references are right, nothing selected or consumed twice - within a
+           \* step or across steps -, no TEX recipient paid out of shielded notes, the ephemeral output spent; (e) follows
+           /\ M!Valid(P) /\ M!Conserves(P)
+           \* (a) every note / coin selected in ANY step is eligible, by the definitions single-step proposals are judged by
+           /\ \A i \in DOMAIN P :
+                 /\ P[i].notes # << >> => (P[i].anchor >= 0 /\ P[i].anchor <= tip)
+                 /\ \A j \in DOMAIN P[i].notes : Eligible(P[i].notes[j][1], P[i].notes[j][2], target, P[i].anchor, minconf, adm)
+                 /\ \A j \in DOMAIN P[i].coins : /\ P[i].coins[j][1] \in EligSetT(r)
+                                                 /\ coinSt.coins[P[i].coins[j][1]].v = P[i].coins[j][2]
+           \* the payments the proposal makes to the outside are exactly the requested ones, each once, in a pool its
+           \* recipient can be paid in (in whichever step)
+           /\ M!FinalPaySet(P) = { << r.pays[i].k, r.pays[i].ad, r.pays[i].v >> : i \in DOMAIN r.pays }
+           /\ M!NFinalPays(P) = Len(r.pays)
+           /\ \A i \in DOMAIN P : \A j \in DOMAIN P[i].pays : PoolFits(P[i].pays[j].k, P[i].pays[j].pool)
+           /\ LockableBy(r, SN, SC))
         /\ LocksAfter(r, SN, SC, target)
 
 TPTex == /\ IsEvent("ptex") /\ UNCHANGED << wvars, cvars, sugg >> /\ UNCHANGED coinSt /\ UNCHANGED caddr
@@ -80,17 +90,17 @@ TPTex == /\ IsEvent("ptex") /\ UNCHANGED << wvars, cvars, sugg >> /\ UNCHANGED c
             IN  \/ r.res = "ok" /\ TexProposalOK(r)
                 \* (h) refusals, relational exactly as for single-step proposals
                 \/ /\ r.res = "inputs-locked" /\ r.lock[1] >= 0          \* only a selector drawing through a lock can lose the race
-                   /\ \/ (r.lock[1] \notin SeqToSet(r.admitted)
-                          /\ \E n \in DOMAIN locks : locks[n][1] \in SeqToSet(r.admitted) /\ ~Acquirable(n, r.lock[1]))
-                      \/ (r.tp # 0 /\ \E c \in EligSetT(r) : ~C!AcquirableC(clocks, c, r.lock[1], tip))
+                   /\ Holds(\/ (r.lock[1] \notin SeqToSet(r.admitted)
+                                /\ \E n \in DOMAIN locks : locks[n][1] \in SeqToSet(r.admitted) /\ ~Acquirable(n, r.lock[1]))
+                             \/ (r.tp # 0 /\ \E c \in EligSetT(r) : ~C!AcquirableC(clocks, c, r.lock[1], tip)))
                    /\ UNCHANGED << locks, clocks >>
                 \/ /\ r.res = "insufficient"          \* note-funded: no claim; coins only: not when they clearly cover payments and any fee
-                   /\ funded_by_coins_only =>
+                   /\ Holds(funded_by_coins_only =>
                          LET E == EligSetT(r)  asked == FoldSet(LAMBDA i, acc : acc + r.pays[i].v, 0, DOMAIN r.pays)
-                         IN  ~(r.tp # 0 /\ C!SumV(coinSt, E) >= asked + Dust * (Cardinality(E) + 4 * Len(r.pays) + 8))
+                         IN  ~(r.tp # 0 /\ C!SumV(coinSt, E) >= asked + Dust * (Cardinality(E) + 4 * Len(r.pays) + 8)))
                    /\ UNCHANGED << locks, clocks >>
                 \/ r.res = "scan-required" /\ UNCHANGED << locks, clocks >>
-                \/ /\ r.res = "pools-mismatch" /\ TexIndexGap(r) /\ UNCHANGED << locks, clocks >>
+                \/ /\ r.res = "pools-mismatch" /\ Holds(TexIndexGap(r)) /\ UNCHANGED << locks, clocks >>
                    /\ PrintT(<< "OBSERVED", "tex-recipient-behind-another-refused", l >>)
                 \/ ExplainTex(r)
          /\ PostOK(Rec[l].post) /\ CoinsOK(Rec[l].coins)
@@ -154,16 +164,17 @@ TCTex == /\ IsEvent("ctex") /\ UNCHANGED sugg /\ UNCHANGED cvars /\ UNCHANGED ca
                           x1 == X[1]
                           SN == { P[1].notes[j][1] : j \in DOMAIN P[1].notes }
                           SC == { P[1].coins[j][1] : j \in DOMAIN P[1].coins }
-                      IN  /\ Len(X) = Len(P) /\ Len(P) >= 1
-                          /\ M!Valid(P)                                  \* (the proposal was validated when it was made)
-                          /\ \A i \in DOMAIN P : TxMatchesStep(r, i)
-                          \* only the first transaction of the proposals the wallet makes touches notes and coins
-                          /\ \A i \in DOMAIN P : i >= 2 => (P[i].notes = << >> /\ P[i].coins = << >> /\ X[i].outs = << >>)
-                          /\ Cardinality({ X[i].t : i \in DOMAIN X }) = Len(X)
-                          \* the inputs are the wallet's, at the values the proposal gave them
-                          /\ SN \subseteq known /\ \A j \in DOMAIN P[1].notes : ninfo[P[1].notes[j][1]].v = P[1].notes[j][2]
-                          /\ SC \subseteq DOMAIN coinSt.coins /\ \A j \in DOMAIN P[1].coins : coinSt.coins[P[1].coins[j][1]].v = P[1].coins[j][2]
-                          /\ Cardinality(SN) = Len(P[1].notes) /\ Cardinality(SC) = Len(P[1].coins)
+                      IN  /\ Holds(
+                             /\ Len(X) = Len(P) /\ Len(P) >= 1
+                             /\ M!Valid(P)                                  \* (the proposal was validated when it was made)
+                             /\ \A i \in DOMAIN P : TxMatchesStep(r, i)
+                             \* only the first transaction of the proposals the wallet makes touches notes and coins
+                             /\ \A i \in DOMAIN P : i >= 2 => (P[i].notes = << >> /\ P[i].coins = << >> /\ X[i].outs = << >>)
+                             /\ Cardinality({ X[i].t : i \in DOMAIN X }) = Len(X)
+                             \* the inputs are the wallet's, at the values the proposal gave them
+                             /\ SN \subseteq known /\ \A j \in DOMAIN P[1].notes : ninfo[P[1].notes[j][1]].v = P[1].notes[j][2]
+                             /\ SC \subseteq DOMAIN coinSt.coins /\ \A j \in DOMAIN P[1].coins : coinSt.coins[P[1].coins[j][1]].v = P[1].coins[j][2]
+                             /\ Cardinality(SN) = Len(P[1].notes) /\ Cardinality(SC) = Len(P[1].coins))
                           \* (iv)
                           /\ Create(x1.t, r.target, x1.exp, SN, x1.outs,
                                     CreateChange(x1.outs) \cap { r.post.notes[i].n : i \in DOMAIN r.post.notes })
